@@ -21,9 +21,24 @@ the driver (search path and default repository are process globals).
 
 Reference model: written from the property statement (see class Model).  It is three-valued:
 whatever the statement does not fix is UNSPECIFIED (executed, must not crash, not compared) - see
-the list in run().  quick: model BFS with state de-duplication to depth 2, every edge replayed;
-thorough: (a) every operation sequence of length 3 WITHOUT de-duplication over <= 4 files of the
-core alphabet, (b) the de-duplicated BFS to depth 3 over the wide alphabet.
+the list in run().
+  quick:    model BFS with state de-duplication to depth 2 over every placement of <= 3 files of
+            the 24-file WIDE alphabet x 2 setups; every BFS edge is replayed (a history that is a
+            strict prefix of another one is validated inside the longer one).
+  thorough: (all) every operation sequence of length 3 WITHOUT state de-duplication over every
+            placement of <= 4 files of the 12-file CORE alphabet (hidden implementation state such
+            as the lazy table cannot hide behind an equal model state);
+            (bfs) the de-duplicated BFS to depth 3 over <= 3 files of WIDE + 6 more files
+            (non-numeric / corrupt / unsatisfiable-dependency variants);
+            (bfs-asan) depth-2 BFS over <= 2 CORE files with the ASan+UBSan build.
+The renamings of directories/namespaces that leave (setup, alphabet, menu) invariant are computed
+(symmetry_group) and placements are canonicalised under them; with the asymmetric setups and the
+A->B->C dependency roles that group is trivial, which the evidence records.
+
+Violation keys name the class of the divergence (operation kind, model reason, expected/observed),
+not the instance, so that a recorded finding covers all its instances; the replay case holds the
+simplest instance found (fewest files, shortest history).  VERIF_C17_STRIDE=n (development aid)
+runs only every n-th configuration and marks the evidence as not exhaustive.
 """
 import collections
 import hashlib
@@ -243,7 +258,7 @@ def agree(requested, loaded):
 Entry = collections.namedtuple('Entry', 'ver where lazy deps')       # where = (dir, filename) | BUILTIN
 State = collections.namedtuple('State', 'prepends loaded')           # loaded: sorted tuple of (ns, Entry)
 Outcome = collections.namedtuple('Outcome', 'kind codes reason')     # kind: ok | err | unspec
-Step = collections.namedtuple('Step', 'outcome state stop mask ret')
+Step = collections.namedtuple('Step', 'outcome state stop mask ret lazy')
 
 
 def OK(reason=''):
@@ -314,6 +329,7 @@ class Model(object):
         self.cfg = cfg
         self.loaded = dict(state.loaded)
         self.before = dict(state.loaded)
+        self.saw_lazy = False       # the operation met a namespace that is only lazily loaded
         pp = tuple(reversed(state.prepends))
         self.gpath = pp + cfg.env if order == 0 else cfg.env + pp
 
@@ -352,6 +368,7 @@ class Model(object):
         e = self.loaded.get(ns)
         if e is not None:
             ag = agree(ver, e.ver)
+            self.saw_lazy = self.saw_lazy or e.lazy
             if e.lazy and not lazy:
                 # statement: an already loaded namespace is returned when the versions agree
                 if ag == 'no':
@@ -409,6 +426,7 @@ class Model(object):
         c = content(key)
         e = self.loaded.get(c.ns)
         if e is not None:
+            self.saw_lazy = self.saw_lazy or e.lazy
             if e.lazy and not lazy:
                 return UNSPEC('lazily loaded namespace loaded again from memory')
             ag = agree(c.ver, e.ver)
@@ -428,7 +446,7 @@ class Model(object):
         k = op[0]
         ret = None
         if k == 'p':
-            return Step(OK('prepend'), State(norm_prepends(state.prepends + (op[1],)), state.loaded), False, frozenset(), None)
+            return Step(OK('prepend'), State(norm_prepends(state.prepends + (op[1],)), state.loaded), False, frozenset(), None, False)
         if k == 'r':
             o = self.require(op[1], op[2], op[3], self.gpath)
             ret = op[1]
@@ -441,15 +459,15 @@ class Model(object):
         else:
             raise ValueError(op)
         if o.kind == 'unspec':
-            return Step(o, None, True, frozenset(), ret)
+            return Step(o, None, True, frozenset(), ret, self.saw_lazy)
         if o.kind == 'err':
             # what a failed dependency load leaves behind is not fixed: canonical choice = the
             # dependencies loaded so far stay; the requested namespace itself is not loaded
             mask = frozenset()
             if o.codes is None:
                 mask = frozenset(ns for ns in NSS if ns != ret and (ns not in self.before or self.before[ns].lazy))
-            return Step(o, State(state.prepends, tuple(sorted(self.loaded.items()))), False, mask, ret)
-        return Step(o, State(state.prepends, tuple(sorted(self.loaded.items()))), False, frozenset(), ret)
+            return Step(o, State(state.prepends, tuple(sorted(self.loaded.items()))), False, mask, ret, self.saw_lazy)
+        return Step(o, State(state.prepends, tuple(sorted(self.loaded.items()))), False, frozenset(), ret, self.saw_lazy)
 
 
 _STEP_CACHE = {}
@@ -467,7 +485,7 @@ def step(cfg, state, op):
         r1 = Model(cfg, state, 1).apply(state, op)
         if r0 != r1:
             r0 = Step(UNSPEC('outcome depends on the relative precedence of GI_TYPELIB_PATH and prepended directories'),
-                      None, True, frozenset(), r0.ret)
+                      None, True, frozenset(), r0.ret, r0.lazy)
     _STEP_CACHE[ck] = r0
     return r0
 
@@ -807,7 +825,7 @@ class Checker(object):
             return ('stop',)
         oc, rc = op_class(op), reason_class(o.reason)
         # divergences while some namespace is only lazily loaded share a few keys (one defect family)
-        lazy = any(e.lazy for _, e in state.loaded)
+        lazy = st.lazy
         if not result_matches(o, st.ret, resline):
             exp_t, got_t = result_text(o, st.ret), clean(got_result_text(resline))
             got_c = got_t.split(' (')[0]
